@@ -1,5 +1,5 @@
 """C05 - a file-backed arena reopens to exactly the state it was closed in (persistence discipline)."""
-import re
+import re, json
 from engine import rule, Ob, key_of, EXPLAIN, ASSUME
 from sym import Lin, add, sub, const, tag, show, is_const, as_lin, implied_facts, struct_get
 from util import *
@@ -21,10 +21,32 @@ ASSUME["C05"] = ["OS page cache / memmap2: a shared mapping's stores are what a 
 MEMCFG = ("memmap", "memmap-nooverflow", "memmap-tracing")
 
 
+_HS = "key:handle-has-no-mutable-state$"
+
+
 @rule("C05-S2", "C05", 4, "all persistent mutable state is integers in the header: Header is repr(C) with only (atomic) integer fields and the sentinel word; Arena values are "
-      "never mutated outside constructors, Clone and unsync::truncate")
+      "never mutated outside constructors, Clone and unsync::truncate, and cannot be through a shared reference either: no field of an Arena has interior mutability "
+      "(every owned buffer holds its own clone of the handle - allocator state kept in a handle is neither persisted nor seen by the other clones: the same range "
+      "handed out through two handles, a minimum segment size that differs per handle)",
+      also=(("C01", _HS), ("C02", "key:^C05-S2:sync::Arena:handle-has-no-mutable-state$"), ("C10", _HS), ("C20", _HS), ("C11", _HS)))
 def s2(ctx):
     for fl in ("sync", "unsync"):
+        ar = ctx.facts.adts.get("%s::Arena" % fl)
+        bad = []
+        inner_ok = False
+        if ar:
+            for f in ar["variants"][0]["fields"]:
+                if f["name"] == "inner":
+                    inner_ok = bool(re.match(r"^(std|core)::ptr::NonNull<memory::Memory<", f["ty"]))
+                elif re.search(r"Cell|Atomic|Mutex|RwLock|Once|Lazy|Lock\b", f["ty"]):
+                    # a field nothing but Debug / Clone / the constructors touches (a counter kept for display) is not allocator state
+                    pat = re.compile(r'\{"f": "%s", [^{}]*"adt": "%s::Arena"\}' % (re.escape(f["name"]), fl))
+                    users = [b.path for b in ctx.facts.own if pat.search(json.dumps(b.blocks))
+                             and not re.search(r"as (?:std|core)::(?:fmt::Debug>::fmt|clone::Clone>::clone|convert::From<memory::Memory<.*>>>::from)$", b.path)]
+                    if users:
+                        bad.append((f["name"], f["ty"], users[:3]))
+        yield Ob(key_of("C05-S2", "%s::Arena" % fl, "handle-has-no-mutable-state"), ar is not None and inner_ok and not bad,
+                 "fields of %s::Arena other than the pointer to the shared Memory are plain values (interior mutability: %s)" % (fl, bad), "%s:%s" % (ar["file"], ar["line"]) if ar else None)
         a = ctx.facts.adts.get("%s::sealed::Header" % fl)
         ok = a is not None and "IS_C" in a["repr"]
         tys = []
